@@ -5,6 +5,7 @@ package interp
 // symbolic numerator or denominator the fraction is kept un-normalised.
 
 import (
+	"fmt"
 	"math/big"
 )
 
@@ -77,6 +78,27 @@ func init() {
 		}
 	}
 	str("FloatString", func(r *big.Rat, args []value) string { return r.FloatString(int(asInt64(args[1]))) })
+	// FloatString of a symbolic rational: structured text determined by the rounded scaled integer
+	// sign * floor((2|num|*10^prec + |den|) / (2|den|))  (round half away from zero, as math/big does)
+	plainFloatString := externals["(*math/big.Rat).FloatString"]
+	externals["(*math/big.Rat).FloatString"] = func(fr *frame, args []value) value {
+		i := fr.i
+		nc, nt, dc, dt := i.ratGet(args[0], "FloatString")
+		if nt == nil && dt == nil {
+			return plainFloatString(fr, args)
+		}
+		tc := i.tc
+		prec := asInt64(args[1])
+		num, den := i.bt(nc, nt), i.bt(dc, dt)
+		abs := func(t *Term) *Term { return tc.Ite(tc.Lt(t, tc.ConstI(0)), tc.Neg(t), t) }
+		scale := tc.Const(new(big.Int).Exp(big.NewInt(10), big.NewInt(prec), nil))
+		q := tc.Div(tc.Add(tc.Mul(tc.Mul(tc.ConstI(2), abs(num)), scale), abs(den)), tc.Mul(tc.ConstI(2), abs(den)))
+		neg := tc.Not(tc.Iff(tc.Lt(num, tc.ConstI(0)), tc.Lt(den, tc.ConstI(0))))
+		st := i.newSymStr("big.Rat.FloatString")
+		st.kind = fmt.Sprintf("ratfloat%d", prec)
+		st.t = tc.Ite(neg, tc.Neg(q), q)
+		return st
+	}
 	str("String", func(r *big.Rat, args []value) string { return r.String() })
 	str("RatString", func(r *big.Rat, args []value) string { return r.RatString() })
 	externals["(*math/big.Rat).Sign"] = func(fr *frame, args []value) value {
